@@ -62,7 +62,7 @@ type c02crObs struct {
 }
 
 type c02crRef struct {
-	c01Ref                // Blocks, Roots (what the C01 "run" child needs)
+	c01Ref            // Blocks, Roots (what the C01 "run" child needs)
 	At     []c02crObs `json:"at"` // index = height: the reference's observation when it was at that height
 }
 
@@ -471,7 +471,10 @@ func TestVerif_C02_CrashRestart(t *testing.T) {
 		rb, _ := json.Marshal(ref)
 		os.WriteFile(refFile, rb, 0644)
 		last := ref.At[len(ref.At)-1]
-		r.Need(last.Notifies >= 2, "history %s produced only %d notifications on the reference", hist, last.Notifies)
+		if strings.ContainsAny(hist, "tgd") {
+			// (genesis + at least one successful transfer; "e"/"f"-only histories of the thorough tier have bare records at most)
+			r.Need(last.Notifies >= 2, "history %s produced only %d notifications on the reference", hist, last.Notifies)
+		}
 		for h := 1; h <= len(hist); h++ {
 			if hist[h-1] != 'e' {
 				// (a failing transfer whose payer cannot pay the fee leaves a record with State 0 and no notification)
